@@ -765,7 +765,8 @@ func (s *State) applyFunction(name string, fn object.Object, args []object.Objec
 	if !ok {
 		return s.NewError("not a function: " + fn.Type().String() + ":" + fn.Inspect())
 	}
-	if v, output, ok := s.cache.Get(function.CacheKey, args); ok {
+	memoKey := function.CacheKey
+	if v, output, ok := s.cache.Get(memoKey, args); ok {
 		log.Debugf("Cache hit for %s %v -> %#v", function.CacheKey, args, v)
 		if len(output) > 0 {
 			_, err := s.Out.Write(output)
@@ -819,7 +820,7 @@ func (s *State) applyFunction(name string, fn object.Object, args []object.Objec
 		log.Debugf("Cache miss for %s %v, not caching error result", function.CacheKey, args)
 		return res
 	}
-	s.cache.Set(function.CacheKey, args, res, output)
+	s.cache.Set(memoKey, args, res, output)
 	log.Debugf("Cache miss for %s %v", function.CacheKey, args)
 	return res
 }
@@ -1058,6 +1059,9 @@ func (s *State) evalForInteger(fe *ast.ForExpression, start *int64, end int64, n
 		}
 		// else: no register left, or the body modifies/captures the variable: use a plain variable like in NoReg mode.
 	}
+	if ptr == nil && name != "" && s.env.BoundToFunction(name) {
+		s.ResetCache() // like an assignment: the loop variable replaces a function that memoized callers may have used.
+	}
 	for i := startValue; i < endValue; i++ {
 		if ptr == nil && name != "" {
 			if oerr := s.env.Set(name, object.Integer{Value: int64(i)}); oerr.Type() == object.ERROR {
@@ -1134,11 +1138,17 @@ func (s *State) evalForSpecialForms(fe *ast.ForExpression) (object.Object, bool)
 func (s *State) evalForList(fe *ast.ForExpression, list object.Object, name string) object.Object {
 	var lastEval object.Object
 	lastEval = object.NULL
+	if s.env.BoundToFunction(name) {
+		s.ResetCache() // like an assignment: the loop variable replaces a function that memoized callers may have used.
+	}
 	for object.Len(list) > 0 {
 		v := object.First(list)
 		list = object.Rest(list)
 		if v == nil {
 			return s.NewError("for list element is nil")
+		}
+		if v.Type() == object.FUNC {
+			s.ResetCache() // each element may be another function.
 		}
 		s.env.Set(name, v)
 		// Copy pasta from evalForInteger. hard to share control flow.
